@@ -11,7 +11,7 @@ COMMON_TRUST = [
 
 CHECKS = {
     'C10': {
-        'grid': {'quick_stride': 1, 'sets': ['c10'], 'bound': 'FollowFileIterator over a file that a writer thread appends to: 7 contents (ASCII, multi-byte, empty lines, CRLF, 20000-byte lines, a tail completed later) x chunkings (single bytes, 2, 3, 5, 7, 4096, cuts around every newline and inside every multi-byte character) x reader buffers of 1, 2, 3, 16, 8192 bytes x writer pauses; start position through FollowFileExecutor with and without --head on 3 initial contents (about 1290 cases)'},
+        'grid': {'sets': ['c10'], 'bound': 'FollowFileIterator over a file that a writer thread appends to: 7 contents (ASCII, multi-byte, empty lines, CRLF, 20000-byte lines, a tail completed later) x chunkings (single bytes, 2, 3, 5, 7, 4096, cuts around every newline and inside every multi-byte character) x reader buffers of 1, 2, 3, 16, 8192 bytes x writer pauses; start position through FollowFileExecutor with and without --head on 3 initial contents (about 1290 cases)'},
         'verus_units': ['follow', 'executor'],
         'clause_prefixes': ['c10', 'next.', 'new.', 'lemma.'],
         'technique': 'contract-based deductive verification (Verus) of the extracted FollowFileIterator, reader modelled by a nondeterministic callee contract, history lemma over the contract',
@@ -32,7 +32,7 @@ CHECKS = {
         'unproved': ['output printing (OutputPrinter)', 'OS file semantics (truncation, rotation)'],
     },
     'C16': {
-    'grid': {'quick_stride': 1, 'sets': ['c16'], 'bound': 'every ordered pair and triple over 12 REAL, 9 INT, 7 TEXT and 4 TIMESTAMP values, observed through SQL: trichotomy, antisymmetry, transitivity of WHERE comparisons, and agreement of GROUP BY / DISTINCT / self-join with `=` (about 3450 cases)'},
+    'grid': {'sets': ['c16'], 'bound': 'every ordered pair and triple over 12 REAL, 9 INT, 7 TEXT and 4 TIMESTAMP values, observed through SQL: trichotomy, antisymmetry, transitivity of WHERE comparisons, and agreement of GROUP BY / DISTINCT / self-join with `=` (about 3450 cases)'},
         'verus_units': [],
         'technique': 'Kani/CBMC loop-free full-domain harnesses (complete proofs) on the real Float and derived Value impls in a scratch copy of the crate; counterexamples replayed on the real code',
         'claim': 'Proof (complete, not bounded) over all f64 bit patterns, i64 and bool that Float and the scalar variants of Value (NULL, INT, REAL, BOOLEAN) form a total order consistent with ==, partial_cmp and Hash; numeric order for INT and for REAL. INT-vs-REAL numeric ordering fails and is a known finding. Non-scalar variants are not covered.',
@@ -60,7 +60,7 @@ CHECKS = {
 }
 
 CHECKS['C03'] = {
-    'grid': {'quick_stride': 2, 'sets': ['c03'], 'bound': 'every pair (a, b) over {NULL, 0, 1, -1, 2, i64::MAX, i64::MIN} x s in {x, NULL} (97 rows) x 38 projections / conditions against a reference evaluator written from the statement (one row each, and as WHERE over all rows); names, *, input, a column called input; timestamp comparisons by instant with a text literal on either side; 6 functions with column arguments over 4 rows (about 3700 cases)'},
+    'grid': {'sets': ['c03'], 'bound': 'every pair (a, b) over {NULL, 0, 1, -1, 2, i64::MAX, i64::MIN} x s in {x, NULL} (97 rows) x 38 projections / conditions against a reference evaluator written from the statement (one row each, and as WHERE over all rows); names, *, input, a column called input; timestamp comparisons by instant with a text literal on either side; 6 functions with column arguments over 4 rows (about 3700 cases)'},
     'verus_units': ['eval', 'select', 'mapping', 'valuetype', 'converter'],
     'clause_prefixes': ['c03', 'value.', 'engine.', 'row.', 'select.'],
     'technique': 'contract-based deductive verification (Verus): arms of ExpressionExecutionEngine::evaluate extracted from /repo and proved against a recursive specification sem_eval written from the property text; structural induction through the contract of evaluate',
@@ -76,7 +76,7 @@ CHECKS['C03'] = {
     'unproved': ['evaluate arms FunctionCall for regexp_matches, array, array_unique, now, EXTRACT(EPOCH), date_trunc', 'parser_tree_converter::transform_expression arms IN / Call / CASE (closures capturing the lowering state), extract_aggregate (recursive in-place swap)'],
 }
 CHECKS['C09'] = {
-    'grid': {'quick_stride': 2, 'sets': ['c09'], 'bound': '68 expressions / functions and 24 aggregates x 26 lines of extreme data (64-bit ends, NaN / infinities, zero divisors, huge and negative subscripts, absent groups, NULLs, out-of-range and DST-gap date parts, malformed JSON, non-text bytes) x text / JSON / CSV output, lines alone, in pairs and all together (about 7300 runs); the only oracle is: no panic'},
+    'grid': {'sets': ['c09'], 'bound': '68 expressions / functions and 24 aggregates x 26 lines of extreme data (64-bit ends, NaN / infinities, zero divisors, huge and negative subscripts, absent groups, NULLs, out-of-range and DST-gap date parts, malformed JSON, non-text bytes) x text / JSON / CSV output, lines alone, in pairs and all together (about 7300 runs); the only oracle is: no panic'},
     'verus_units': ['eval', 'follow', 'select', 'engine', 'extract', 'parser', 'tokenizer', 'converter', 'valuetype', 'output', 'executor', 'aggregate', 'aggdispatch', 'aggresult', 'join', 'joinload', 'mapping', 'visit'],
     'only_safety': True,
     'clause_prefixes': ['c09'],
@@ -109,7 +109,7 @@ CHECKS['C08'] = {
 }
 
 CHECKS['C07'] = {
-    'grid': {'quick_stride': 4, 'sets': ['c07'], 'bound': 'every sequence of up to 3 admitted lines over a 4-line pool (also cut into two files) x 8 plain/DISTINCT, 4 aggregate and 4 join statements x every n in 0..rows+2 (about 1070 cases, each with all n)'},
+    'grid': {'sets': ['c07'], 'bound': 'every sequence of up to 3 admitted lines over a 4-line pool (also cut into two files) x 8 plain/DISTINCT, 4 aggregate and 4 join statements x every n in 0..rows+2 (about 1070 cases, each with all n)'},
     'verus_units': ['engine', 'executor', 'converter', 'aggresult'],
     'clause_prefixes': ['c07', 'out.'],
     'technique': 'contract-based deductive verification (Verus): ExecutionEngine::update_limit / reached_limit / execute extracted from /repo; prefix lemma over the update_limit contract',
@@ -146,7 +146,7 @@ CHECKS['C11'] = {
 }
 
 CHECKS['C01'] = {
-    'grid': {'quick_stride': 1, 'sets': ['c01'], 'bound': '14 column definitions (TEXT / INT / REAL / BOOLEAN, DEFAULT, whole match, TEXT[] array, TRIM, 3- and 6-part TIMESTAMP, split fields) over 3 capture patterns, a split pattern and an inline pattern x 32 lines (partial and no match, empty groups, 64-bit extremes and beyond, out-of-range date parts, two matches on a line, padding), each line alone and all lines as one file (about 490 cases); oracle = the regex crate on the line + the conversion rules of the statement'},
+    'grid': {'sets': ['c01'], 'bound': '14 column definitions (TEXT / INT / REAL / BOOLEAN, DEFAULT, whole match, TEXT[] array, TRIM, 3- and 6-part TIMESTAMP, split fields) over 3 capture patterns, a split pattern and an inline pattern x 32 lines (partial and no match, empty groups, 64-bit extremes and beyond, out-of-range date parts, two matches on a line, padding), each line alone and all lines as one file (about 490 cases); oracle = the regex crate on the line + the conversion rules of the statement'},
     'verus_units': ['extract', 'valuetype', 'parser', 'converter'],
     'clause_prefixes': ['c01'],
     'technique': 'contract-based deductive verification (Verus): ColumnParsing::extract_using_regex, the Regex / MultiRegex-array / MultiRegex-timestamp arms of ColumnParsing::extract, ColumnDefinition::default_value and TableDefinition::extract extracted from /repo against a specification of "the referenced group of the referenced pattern, typed"',
@@ -158,7 +158,7 @@ CHECKS['C01'] = {
     'unproved': ['timestamp month-name branch', 'regex crate (matching)', 'vx_pattern_refs: the closure that borrows (name, text, mode) triples for TableDefinition::new is a stand-in (tuple-pattern closure returning borrows)', 'the expression parser behind DEFAULT literals (stand-ins)'],
 }
 CHECKS['C02'] = {
-    'grid': {'quick_stride': 1, 'sets': ['c02'], 'bound': '20 JSON-path column definitions (every scalar type, nested paths, array indexes, CONVERT, DEFAULT, an array column; a regex column beside them) x 30 lines (nesting, whitespace around the document, wrong-typed leaves, numbers beyond i64 / f64, duplicate keys, arrays, empty containers, non-JSON, truncated JSON); NOT NULL / DEFAULT interplay on 6 lines (about 600 cases), oracle = serde_json parse of the line + the conversion rules of the statement'},
+    'grid': {'sets': ['c02'], 'bound': '20 JSON-path column definitions (every scalar type, nested paths, array indexes, CONVERT, DEFAULT, an array column; a regex column beside them) x 30 lines (nesting, whitespace around the document, wrong-typed leaves, numbers beyond i64 / f64, duplicate keys, arrays, empty containers, non-JSON, truncated JSON); NOT NULL / DEFAULT interplay on 6 lines (about 600 cases), oracle = serde_json parse of the line + the conversion rules of the statement'},
     'verus_units': ['extract', 'parser', 'converter'],
     'clause_prefixes': ['c02'],
     'technique': 'contract-based deductive verification (Verus): JsonAccess::get_value (recursive, with decreases), the Json arm of ColumnParsing::extract and the scalar arms of ValueType::convert_from_json extracted from /repo against json_walk / sem_from_json',
@@ -171,7 +171,7 @@ CHECKS['C02'] = {
 }
 
 CHECKS['C13'] = {
-    'grid': {'quick_stride': 1, 'sets': ['c13'], 'bound': 'complete over the operator table for expressions of two and three binary operators between plain operands (144 + 1728 cases); IS [NOT] NULL / [NOT] IN around every operator; NOT, unary minus, negative literals, cast / subscript / qualified operands on either side of every operator; parenthesised operands (also in the middle of every operator pair); line breaks between an operator and a unary minus (about 2390 cases)'},
+    'grid': {'sets': ['c13'], 'bound': 'complete over the operator table for expressions of two and three binary operators between plain operands (144 + 1728 cases); IS [NOT] NULL / [NOT] IN around every operator; NOT, unary minus, negative literals, cast / subscript / qualified operands on either side of every operator; parenthesised operands (also in the middle of every operator pair); line breaks between an operator and a unary minus (about 2390 cases)'},
     'verus_units': ['parser', 'tokenizer', 'converter'],
     'clause_prefixes': ['c13'],
     'technique': 'contract-based deductive verification (Verus): BinaryOperators::new / get, Parser::get_token_precedence, Parser::parse_unary_operator and tokenize extracted from /repo; the precedence numbers are read from the source on every run, the functions are proved to use exactly them, and a lemma proves that the numbers realise the standard SQL chain',
@@ -183,7 +183,7 @@ CHECKS['C13'] = {
     'unproved': ['reference-grouping correctness of the whole expression parser', 'keyword table content (KEYWORDS) and IS NOT / NOT IN keyword fusion', 'statement grammar (parse_select ...)'],
 }
 CHECKS['C14'] = {
-    'grid': {'quick_stride': 1, 'sets': ['c14'], 'bound': '16 valid statements: every prefix, every single token deleted / duplicated / swapped with its neighbour; 3000 token soups over an 85-word vocabulary and 1500 random Unicode strings from a fixed generator; bracket / NOT / minus / subscript nesting to depth 200; 9 definitions and queries that must be rejected (about 7370 cases)'},
+    'grid': {'sets': ['c14'], 'bound': '16 valid statements: every prefix, every single token deleted / duplicated / swapped with its neighbour; 3000 token soups over an 85-word vocabulary and 1500 random Unicode strings from a fixed generator; bracket / NOT / minus / subscript nesting to depth 200; 9 definitions and queries that must be rejected (about 7370 cases)'},
     'verus_units': ['parser', 'tokenizer', 'converter', 'extract'],
     'clause_prefixes': ['c14'],
     'technique': 'contract-based deductive verification (Verus) of tokenize (with its local TokenizerState), TokenLocation::extract_near and the parser\'s token cursor (Parser::new/next/current/current_location/create_error/expect_token/expect_and_consume_token, ParserError::new) extracted from /repo',
@@ -196,7 +196,7 @@ CHECKS['C14'] = {
 }
 
 CHECKS['C12'] = {
-    'grid': {'quick_stride': 1, 'sets': ['c12'], 'bound': 'every file content of up to 2 lines over a 4-line pool with LF / CRLF / no final terminator (109 contents) as one file, all ordered pairs of 21 of them and all ordered triples of 6 as several files; lines of 1 byte .. 3 MB; 2 x 3000 lines; invalid-UTF-8 lines in the input and in the joined file; SELECT input, COUNT(*) and an inner join whose joined file is the grid file (1247 cases)'},
+    'grid': {'sets': ['c12'], 'bound': 'every file content of up to 2 lines over a 4-line pool with LF / CRLF / no final terminator (109 contents) as one file, all ordered pairs of 21 of them and all ordered triples of 6 as several files; lines of 1 byte .. 3 MB; 2 x 3000 lines; invalid-UTF-8 lines in the input and in the joined file; SELECT input, COUNT(*) and an inner join whose joined file is the grid file (1247 cases)'},
     'verus_units': ['executor', 'joinload'],
     'clause_prefixes': ['c12'],
     'technique': 'contract-based deductive verification (Verus): FileExecutor::execute (both nested reader loops, labelled break) extracted from /repo and proved equal to a recursive run function sem_run; the property is proved as lemmas about sem_run',
@@ -221,7 +221,7 @@ CHECKS['C19'] = {
 }
 
 CHECKS['C04'] = {
-    'grid': {'quick_stride': 4, 'sets': ['c04'], 'bound': 'every sequence of up to 3 rows, a ninth of those of 4 and about 1% of those of 5 over a 7-row pool (NULL keys, NULL arguments, all-NULL groups, TEXT arguments) x 9 statement shapes against aggregates computed per group from the written rows (about 4000 cases); every statement has COUNT(*), so the two known findings (no cell at all) are outside this grid'},
+    'grid': {'sets': ['c04'], 'bound': 'every sequence of up to 3 rows, a ninth of those of 4 and about 1% of those of 5 over a 7-row pool (NULL keys, NULL arguments, all-NULL groups, TEXT arguments) x 9 statement shapes against aggregates computed per group from the written rows (about 4000 cases); every statement has COUNT(*), so the two known findings (no cell at all) are outside this grid'},
     'verus_units': ['aggregate', 'aggdispatch', 'aggresult', 'converter', 'visit'],
     'clause_prefixes': ['c04', 'value.modify', 'value.map-numeric', 'value.default'],
     'technique': 'contract-based deductive verification (Verus): GroupAggregator::default / update (all arms) / is_null, ensure_sum_fits and Value::modify_same_type_numeric_nullable / map_numeric extracted from /repo against step functions written from the property text',
@@ -265,7 +265,7 @@ CHECKS['C05'] = {
 }
 
 CHECKS['C17'] = {
-    'grid': {'quick_stride': 1, 'sets': ['c17'], 'bound': 'OutputPrinter::print driven with tables of 1..4 columns and 0..3 rows (several tables per printer, an empty one first) built from 33 values (64-bit ends, REAL edge values, TEXT with quotes / delimiters / control / non-ASCII characters, arrays up to 300 elements, NULLs), JSON parsed back and compared, CSV and text for delimiter-free values, interactive and single-result mode; 12 query/format combinations through FileExecutor (about 2500 cases)'},
+    'grid': {'sets': ['c17'], 'bound': 'OutputPrinter::print driven with tables of 1..4 columns and 0..3 rows (several tables per printer, an empty one first) built from 33 values (64-bit ends, REAL edge values, TEXT with quotes / delimiters / control / non-ASCII characters, arrays up to 300 elements, NULLs), JSON parsed back and compared, CSV and text for delimiter-free values, interactive and single-result mode; 12 query/format combinations through FileExecutor (about 2500 cases)'},
     'verus_units': ['output'],
     'clause_prefixes': ['c17'],
     'technique': 'contract-based deductive verification (Verus) of OutputPrinter::with_printer / print and Value::json_value extracted from /repo; the text of a record (format!, join, serde_json::to_string) is an uninterpreted function of the row',
